@@ -1,6 +1,34 @@
 // Contract harnesses for ntp-proto/src/identifiers.rs (child module: sees private items).
+// Property C33 (leaf): the reference id of an IPv4 address is its four octets, so two IPv4
+// addresses have the same id iff they are equal; C09 (leaf): the KISS code predicates.
 #![allow(unused_imports)]
 use super::*;
+
+#[kani::proof]
+fn c33_p_refid_from_ipv4_injective() {
+    let a: [u8; 4] = kani::any();
+    let b: [u8; 4] = kani::any();
+    let ia = ReferenceId::from_ip(IpAddr::V4(std::net::Ipv4Addr::new(a[0], a[1], a[2], a[3])));
+    let ib = ReferenceId::from_ip(IpAddr::V4(std::net::Ipv4Addr::new(b[0], b[1], b[2], b[3])));
+    assert!(ia.0 == u32::from_be_bytes(a));
+    assert!((ia == ib) == (a == b));
+    assert!(ia.to_bytes() == a && ReferenceId::from_bytes(a) == ia && ReferenceId::from_int(ia.0) == ia);
+    kani::cover!(ia == ib, "equal reachable");
+}
+
+#[kani::proof]
+fn c09_p_kiss_code_predicates() {
+    let x: [u8; 4] = kani::any();
+    let r = ReferenceId::from_bytes(x);
+    assert!(r.is_deny() == (x == *b"DENY"));
+    assert!(r.is_rate() == (x == *b"RATE"));
+    assert!(r.is_rstr() == (x == *b"RSTR"));
+    assert!(r.is_ntsn() == (x == *b"NTSN"));
+    // the four codes are mutually exclusive
+    let n = r.is_deny() as u8 + r.is_rate() as u8 + r.is_rstr() as u8 + r.is_ntsn() as u8;
+    assert!(n <= 1);
+    kani::cover!(r.is_ntsn(), "NTSN reachable");
+}
 
 #[cfg(all(kani, test))]
 mod replay {
